@@ -42,6 +42,10 @@ const (
 	boundedMemLimit    = 256 << 20
 	boundedUlimitKB    = 6 << 20 // address space, KiB (the Go runtime reserves far more than it uses)
 	boundedKillAfter   = 25 * time.Second
+	// kill timeout (after the deadline) for the families that need milliseconds, and how many killed runs
+	// are repeated alone at most (a hang repeats exactly; many hangs must not stall the check)
+	boundedKillAfterQuick = 8 * time.Second
+	boundedMaxKilledRetry = 2
 	boundedWorkers     = 8
 	boundedRetryOverMs = 1000
 )
@@ -105,6 +109,30 @@ func boundedProgram(fam string, n int64) string {
 		return "n=" + intLit(n) + "\na=[1]*n\nx=a+a\nlen(x)"
 	case "huge-strcat": // a string of 2n bytes doubled 4 times by concatenation (32n bytes)
 		return "n=" + intLit(n) + "\ns=\"ab\"*n\nx=s+s\ny=x+x\nz=y+y\nw=z+z\nlen(w)"
+	// --- huge count x degenerate (empty) operand: nothing to allocate, so only the loop bound protects
+	case "degen-arr-lit":
+		return "n=" + intLit(n) + "\nx=[]*n\nlen(x)"
+	case "degen-arr-slice":
+		return "n=" + intLit(n) + "\ny=[1,2,3]\ne=y[3:3]\nx=e*n\nlen(x)"
+	case "degen-arr-rng":
+		return "n=" + intLit(n) + "\nx=(0:0)*n\nlen(x)"
+	case "degen-arr-rng5":
+		return "n=" + intLit(n) + "\nk=5\nx=(k:k)*n\nlen(x)"
+	case "degen-str":
+		return "n=" + intLit(n) + "\nx=\"\"*n\nlen(x)"
+	case "degen-str-slice":
+		return "n=" + intLit(n) + "\ny=\"abc\"\ne=y[3:3]\nx=e*n\nlen(x)"
+	case "degen-map-loop": // a counted loop of n iterations merging empty maps: polled, ends by the deadline
+		return "n=" + intLit(n) + "\nm={}\nfor n {m=m+{}}\nlen(m)"
+	case "degen-cat-loop":
+		return "n=" + intLit(n) + "\na=[]\nfor n {a=a+[]}\nlen(a)"
+	// --- counts whose product with the operand's length wraps around 2^64 (or 2^63)
+	case "wrap-arr":
+		return "n=" + intLit(n) + "\nx=[1,2,3,4]*n\nlen(x)"
+	case "wrap-arr2":
+		return "n=" + intLit(n) + "\nx=[1,2]*n\nlen(x)"
+	case "wrap-str":
+		return "n=" + intLit(n) + "\nx=\"abcd\"*n\nlen(x)"
 	// --- growth in a loop
 	case "grow-arr":
 		return "a=[1,2]\nfor true {a=a+a}"
@@ -210,9 +238,23 @@ func boundedChild(args []string) int {
 	return 0
 }
 
+// families that finish in milliseconds when the code is right: a run that has to be killed there is a hang, and
+// waiting longer (or repeating many of them) only delays the report
+func boundedQuickFamily(fam string) bool {
+	return strings.HasPrefix(fam, "degen-") || strings.HasPrefix(fam, "wrap-") || strings.HasPrefix(fam, "huge-") ||
+		strings.HasPrefix(fam, "loop-") || fam == "sleep"
+}
+
+func boundedKillAfterFor(fam string) time.Duration {
+	if boundedQuickFamily(fam) {
+		return boundedKillAfterQuick
+	}
+	return boundedKillAfter
+}
+
 // runBoundedChild returns the observation without the retried flag, and whether a retry is warranted.
 func runBoundedChild(fam string, n int64, d, t int) (string, bool) {
-	ctx, cancel := context.WithTimeout(context.Background(), boundedKillAfter+time.Duration(t)*time.Millisecond)
+	ctx, cancel := context.WithTimeout(context.Background(), boundedKillAfterFor(fam)+time.Duration(t)*time.Millisecond)
 	defer cancel()
 	cmd := exec.CommandContext(ctx, "/bin/sh", "-c", fmt.Sprintf("ulimit -v %d; exec \"$0\" \"$@\"", boundedUlimitKB),
 		selfExe(), "child-bounded", fam, strconv.FormatInt(n, 10), strconv.Itoa(d), strconv.Itoa(t))
@@ -384,6 +426,23 @@ func boundedGen(tier string, r *rng, emit func(string)) {
 		}
 		add("huge-arr", int64(1)<<62, 0, 1000)
 		add("huge-str", int64(1)<<62, 0, 1000)
+		// huge count x empty operand (only the loop bound protects), and counts whose product wraps
+		hugeCounts := []int64{1 << 40, 1 << 62, 4611686018427387905, 9223372036854775807}
+		for j, f := range []string{"degen-arr-lit", "degen-arr-slice", "degen-arr-rng", "degen-arr-rng5", "degen-str", "degen-str-slice",
+			"degen-map-loop", "degen-cat-loop"} {
+			for k, n := range hugeCounts {
+				if thorough || i > 0 || (j+k)%2 == 0 || f == "degen-arr-lit" || f == "degen-arr-slice" {
+					add(f, n, pickD(), []int{100, 1000}[(i+j+k)%2])
+				}
+			}
+		}
+		for j, f := range []string{"wrap-arr", "wrap-arr2", "wrap-str"} {
+			for k, n := range []int64{1 << 62, 4611686018427387905, 9223372036854775807, 1<<62 + 1<<61, 2305843009213693953} {
+				if thorough || (j+k)%2 == 0 {
+					add(f, n, pickD(), 1000)
+				}
+			}
+		}
 		// growth in a loop
 		for j, f := range grows {
 			add(f, 0, pickD(), []int{1000, 100}[(i+j)%2])
@@ -421,6 +480,7 @@ func boundedGen(tier string, r *rng, emit func(string)) {
 	var wg sync.WaitGroup
 	var retryMu sync.Mutex
 	var retries []job
+	killedRetries := 0
 	seen := map[string]bool{}
 	for w := 0; w < boundedWorkers; w++ {
 		wg.Add(1)
@@ -430,9 +490,16 @@ func boundedGen(tier string, r *rng, emit func(string)) {
 				obs, retry := runBoundedChild(j.c.fam, j.c.n, j.c.d, j.c.t)
 				if retry {
 					retryMu.Lock()
-					retries = append(retries, j)
-					retryMu.Unlock()
-					continue
+					killed := strings.HasPrefix(obs, "exit=killed")
+					if !killed || killedRetries < boundedMaxKilledRetry {
+						if killed {
+							killedRetries++
+						}
+						retries = append(retries, j)
+						retryMu.Unlock()
+						continue
+					}
+					retryMu.Unlock() // enough killed runs are being repeated: report this one as measured
 				}
 				boundedMu.Lock()
 				boundedResults[j.in] = obs + ";retried=0"
